@@ -442,6 +442,10 @@ class Resolver:
                     if tgt is not None:
                         hk: dict[str, ast.expr] = {}
                         kwv = next((k.value for k in n.keywords if k.arg == "kwargs"), None)
+                        if isinstance(kwv, ast.Name):
+                            from .astutil import expand as _expand
+
+                            kwv = _expand(f.node, kwv)  # kwargs=<local holding the dict literal>
                         if isinstance(kwv, ast.Dict):
                             for k_, v_ in zip(kwv.keys, kwv.values):
                                 if isinstance(k_, ast.Constant) and isinstance(k_.value, str):
